@@ -1,6 +1,5 @@
 from __future__ import annotations
 
-import copy
 import dataclasses
 import functools
 import inspect
@@ -109,7 +108,11 @@ class Attr:
     @classmethod
     def from_attr_value(cls, name, value, **kwargs):
         if isinstance(value, Attr):
-            attr_spec = copy.deepcopy(value)
+            from spec_classes.utils.mutation import protect_via_deepcopy
+
+            # (the declaration may hold values that only copy under the
+            # library's copy protection, e.g. modules in a default)
+            attr_spec = protect_via_deepcopy(value)
         elif isinstance(value, dataclasses.Field):
             attr_spec = Attr(
                 default=MISSING
